@@ -595,7 +595,9 @@ func checkEndpointTypes(r *Report, p *Prog) {
 					if ai == nil {
 						continue
 					}
-					if isCallFailureAtom(ai) || strings.Contains(an, "."+loc) {
+					// (an earlier step failed; or the attribute itself is absent or empty — not a comparison of the attribute
+					// with something else, which skips the check for some present values)
+					if isCallFailureAtom(ai) || strings.Contains(an, "."+loc) && (ai.Kind == "empty" || ai.Kind == "isnil") {
 						continue
 					}
 					why = "the check is skipped depending on " + an
